@@ -641,6 +641,12 @@ class Translator:
         if n.get('isPostfix'):
             return x + op
         if op == '*':
+            try:
+                oct_ = self.tm.tname(i[0]['type'])
+            except ExtractError:
+                oct_ = None
+            if oct_ == 'c_textptr':
+                return 'TEXT_AT(%s)' % x       # read through a position of the ghost text buffer (bounds obligation in the macro)
             return '(*%s)' % x
         if op == '&':
             if x.startswith('(*') and x.endswith(')') and self._balanced(x[2:-1]):
@@ -1260,7 +1266,18 @@ class Translator:
             mrx = rx.search(q)
             if mrx:
                 if '\\' in macro:
-                    # macro name built from the match: \1 .. are replaced by the identifier form of the groups
+                    # macro name built from the call: \T<k> is the C type of the k-th argument (1-based), \<k> the k-th
+                    # group of the match, both in identifier form
+                    def argtype(g):
+                        k = int(g.group(1)) - 1
+                        real = [a for a in args if a.get('kind') != 'CXXDefaultArgExpr']
+                        if k >= len(real):
+                            return 'none'
+                        try:
+                            return ident(self.tm.tname(real[k]['type']).rstrip(' *').rstrip())
+                        except ExtractError:
+                            return 'opaque'
+                    macro = re.sub(r'\\T(\d)', argtype, macro)
                     macro = re.sub(r'\\(\d)', lambda g: ident(mrx.group(int(g.group(1))) or ''), macro)
                 al = []
                 if obj is not None:
